@@ -655,6 +655,12 @@ class Interp:
                 if isinstance(b, PyObj) and b.tag == 'emptylist':
                     return a
             raise Unsupported('binop on %r, %r' % (a, b))
+        if isinstance(a.kind, K.Opt) and not self.spec:
+            self.implicit_raise(z3.Not(K.opt_isnone(a)), 'TypeError', 'operand is None', node)
+            a = K.opt_inner(a)
+        if isinstance(b.kind, K.Opt) and not self.spec and not isinstance(a.kind, K._Str):
+            self.implicit_raise(z3.Not(K.opt_isnone(b)), 'TypeError', 'operand is None', node)
+            b = K.opt_inner(b)
         ka, kb = a.kind, b.kind
         num = lambda k: isinstance(k, (K._Int, K._Bool))
         if num(ka) and num(kb):
@@ -741,11 +747,15 @@ class Interp:
     def str_format(self, fmt, args, node):
         f = simp(fmt.t)
         if not z3.is_string_value(f):
-            raise Unsupported('%%-format with non-constant format')
+            # message text built from a non-constant format: an unspecified string
+            return K.vstr(self.p.fresh('fmt', z3.StringSort()))
         text = f.as_string()
         # z3 escapes non-ascii as \u{..}; formats here are ascii
         if isinstance(args, PyObj):
             items = args.items if args.tag == 'pytuple' else [args]
+        elif isinstance(args.kind, K.Seq):
+            # a tuple of unknown length as format arguments: the text is unspecified (arity errors not modelled)
+            return K.vstr(self.p.fresh('fmt', z3.StringSort()))
         else:
             items = K.tuple_items(args) if isinstance(args.kind, K.Tuple) else [args]
         parts, i, n = [], 0, 0
@@ -778,7 +788,7 @@ class Interp:
                     n += 1
                     i += 2
                     continue
-                raise Unsupported('format directive %%%s' % nxt)
+                return K.vstr(self.p.fresh('fmt', z3.StringSort()))     # %(name)s etc.: unspecified text
             buf += ch
             i += 1
         if buf:
@@ -978,7 +988,7 @@ K.from_py_const = _from_py_const
 
 BUILTINS = {'len', 'isinstance', 'list', 'tuple', 'set', 'dict', 'sorted', 'enumerate',
             'callable', 'bool', 'str', 'repr', 'getattr', 'hasattr', 'int', 'zip',
-            'reversed', 'all', 'any', 'super', 'OrderedDict', 'iter', 'type', 'min', 'max'}
+            'reversed', 'all', 'any', 'super', 'OrderedDict', 'iter', 'type', 'min', 'max', 'issubclass'}
 SPEC_BUILTINS = {'old', 'implies', 'iff', 'forall', 'exists', 'result', 'ite', 'dtype_is',
                  'raised', 'fresh_ref', 'range', 'live', 'key_at', 'log_len', 'distinct',
                  'unchanged', 'const_seq', 'allocated', 'exc_attr', 'has_exc_attr', '_', 'text_type', 'fun', 'index_in', 'last_sorted', 'use_lemma', 'to_str', 'sel', 'is_none', 'some', 'truthy'}
